@@ -73,6 +73,17 @@ def run(tier, seed, t0):
         if not stats['samples']:
             stats['samples'] = [{'type': r['type'], 'mode': r['mode'], 'input': r['input'], 'result': r['impl']} for r in drecs[7:4000:401]]
     stats['result_classes'] = dict(classes)
+    # generator floor: every cause named by the property must actually have been exercised
+    seen = set(k.split(':')[-1] for k in classes if ':err:' in k)
+    need = {'UnexpectedLength', 'NotAllBytesRead', 'Zst', 'BadBool', 'BadOption', 'BadResult', 'BadVariant', 'ZeroNonZero', 'NaNDe', 'Utf8'}
+    if any(c.startswith('std') for c in exes):
+        need |= {'Ascii', 'BadIpAddr', 'BadSocketAddr'}
+    if any(CONFIGS[c][1] for c in exes):
+        need |= {'KeyOrder'}
+    stats['error_classes_required'] = sorted(need)
+    stats['error_classes_seen'] = sorted(seen)
+    if exes and not disagreements and not failures and not need <= seen:
+        raise CheckBroken('generator floor: error classes never exercised: %s' % sorted(need - seen))
     stats['distinct_nontrivial'] = len(distinct)
     stats['rule'] = ('truncations and single-byte corruptions of implementation-produced encodings plus random strings/adversarial length prefixes, all deserializable '
                      'catalogue types (every feature-gated impl in the std configs); non-trivial = the input is rejected; distinct = distinct (type, input)')
